@@ -336,7 +336,7 @@ func runC15(r *Runner, g *Gen, tier string) string {
 		r.Do(op, len(op.String()) > 40, "jsonout")
 	}
 	// deep nesting: arrays, objects and alternations, every depth up to 80 and some far beyond
-	for _, depth := range append(seqInts(1, 80), 100, 127, 128, 129, 255, 256, 257, 1000) {
+	for _, depth := range append(seqInts(1, 80), 100, 127, 128, 129, 255, 256, 257, scale(tier, 400, 1000)) {
 		for shape := 0; shape < 3; shape++ {
 			var calls []*Sexp
 			for d := 0; d < depth; d++ {
